@@ -36,6 +36,9 @@ for _p in ("C01", "C02", "C03", "C04", "C05", "C06", "C07", "C08"):
     EXTRA_TB[_p] = list(ENGINE_TB)
 
 ASSUME = {
+    "C06": ["row equivalence = veqb (numbers by IEEE == plus sign of zero, NaN = NaN); FeqLaws (symmetry, transitivity of feqb) is a premise discharged from the stdlib's FloatAxioms.eqb_spec; the sha256 fingerprint over the %#v text is assumed injective",
+            "UNION theorems assume branch rows are objects with sorted unique keys (what the engine produces), so that the union's SELECT * is the identity"],
+    "C08": ["nested claims for `simple` queries (no DISTINCT / ORDER BY / LIMIT / GROUP BY at the outer level: the property speaks of filter/projection queries); the mix=> half additionally needs plain_query (no aggregates or subqueries): SELECT a, COUNT(*) legitimately differs between a nested source and its flattening"],
     "C02": ["CASE conditions must be operator-built booleans (a bool column as a CASE/WHERE condition is an error in this engine); NULL handling is left-biased (missing + 'x' = NULL, 'x' + missing = error) and the specification states that order explicitly",
             "`SELECT *` combined with an item aliased `<-`: Go deletes the `<-` key in a post-processor, the model keeps it; such aliases are not generated"],
     "C11": ["the generic trace theorem is tied to the Go source by the regenerated mutation-site obligation (syntactic, intraprocedural provenance; audited entries justified in Gen/SiteRules.v) and by deep comparison of the document after every generated query, incl. queries failing part-way; the Go runtime's map/slice aliasing semantics are as Go specifies"],
